@@ -1852,6 +1852,11 @@ func (interp *Interpreter) cfg(root *node, sc *scope, importPath, pkgName string
 					break
 				}
 			}
+			for sym.prev != nil && (isInside(n, sym.node) || sym.node.anc.kind == blockStmt && n.pos < sym.node.pos) {
+				// The initializer of a variable defined again, and the statements
+				// before its definition, refer to the previous variable.
+				sym = sym.prev
+			}
 			// Found symbol, populate node info
 			n.sym, n.typ, n.findex, n.level = sym, sym.typ, sym.index, level
 			if n.findex < 0 {
@@ -3661,6 +3666,16 @@ func defineLabels(sc *scope, stmts []*node) {
 		sc.sym[label] = sym
 		c.sym = sym
 	}
+}
+
+// isInside returns true if n is a descendant of node anc.
+func isInside(n, anc *node) bool {
+	for n = n.anc; n != nil; n = n.anc {
+		if n == anc {
+			return true
+		}
+	}
+	return false
 }
 
 // nextClause returns the clause which follows clauses[i] in the source, or nil.
